@@ -238,3 +238,21 @@ Lemma split_path_fuel path fuel :
 Proof.
   intros H. unfold split_path. apply (split_loop_fuel (List.length (strip_slash path))); lia.
 Qed.
+
+(* the same two witnesses, with the fact that they lie OUTSIDE what the Set handler accepts: the key value x/y fails
+   IndexAllowedChars, which CheckKeyValue (updates, /repo 7b08917) and doDelete (deletes, /repo a2a122e) enforce *)
+Lemma parent_outside_accepted :
+  exists p e, wf_gpath (p ++ [e]) = true /\ accepted_gpath (p ++ [e]) = false /\
+              get_parent (str_path_elem (p ++ [e])) <> str_path_elem p.
+Proof.
+  exists [el (B "a") []], (el (B "b") [(B "k", B "x/y")]).
+  split; [vm_compute; reflexivity|]. split; [vm_compute; reflexivity|]. vm_compute. congruence.
+Qed.
+
+Lemma get_proto_outside_accepted :
+  exists p, wf_gpath p = true /\ accepted_gpath p = false /\
+            parse_path (str_path p) = ROk p /\ create_update_path (str_path p) <> ROk p.
+Proof.
+  exists slash_key_path. split; [vm_compute; reflexivity|]. split; [vm_compute; reflexivity|].
+  split; [vm_compute; reflexivity|]. vm_compute. congruence.
+Qed.
